@@ -16,7 +16,7 @@ def register(K):
 
     # every analysis: a generator of findings; a finding is an AnalysisResult whose severity is never LIKELY_SAFE
     K.contract("analysis.Analysis.analyze", params="self: analysis.Analysis, context: analysis.AnalysisContext", returns="gen", yields=RES,
-               modifies=["context.reported_shortened_code[]"],
+               modifies=["context.reported_shortened_code[]"], may_raise=["Exception"],
                ensures=["forall('j', len(result), 'doc_rank(result[j].severity) >= 1')"],
                notes="base contract inherited by the nine analyses (behavioural subtyping)")
 
@@ -25,7 +25,7 @@ def register(K):
                ensures=["self.pickled is pickled", "len(self.previous_results) == 0", "len(self.reported_shortened_code) == 0",
                         "fresh_since_entry(self.previous_results)", "fresh_since_entry(self.reported_shortened_code)"])
     K.contract("analysis.AnalysisContext.analyze", params="self: analysis.AnalysisContext, analysis: analysis.Analysis",
-               returns=f"list[{RES}]",
+               returns=f"list[{RES}]", may_raise=["Exception"],
                modifies=["self.previous_results[]", "self.reported_shortened_code[]", "self.results_by_analysis[]"],
                ensures=["self.previous_results == old(self.previous_results) + result",
                         "forall('j', len(result), 'doc_rank(result[j].severity) >= 1')"])
@@ -33,6 +33,7 @@ def register(K):
                ensures=["result.pickled is self.pickled", "result.results == self.previous_results"])
 
     K.contract("analysis.Analyzer.analyze", params="self: analysis.Analyzer, pickled: fickle.Pickled", returns="analysis.AnalysisResults",
+               may_raise=["Exception"],
                ensures=["result.pickled is pickled",
                         "forall('j', len(result.results), 'doc_rank(result.results[j].severity) >= 1')"],
                loops={0: dict(invariant=["context.pickled is pickled",
@@ -50,7 +51,7 @@ def register(K):
     K.contract("analysis.check_safety",
                params="pickled: fickle.Pickled, analyzer: analysis.Analyzer? = None, verbosity: analysis.Severity = Severity.POSSIBLY_UNSAFE, "
                       "json_output_path: val = None",
-               returns="analysis.AnalysisResults", may_raise=["OSError"],
+               returns="analysis.AnalysisResults", may_raise=["OSError", "Exception"],
                ensures=["result.pickled is pickled",
                         "forall('j', len(result.results), 'doc_rank(result.results[j].severity) >= 1')"])
     K.contract("analysis.is_likely_safe", params="filepath: val", returns="bool", may_raise=["OSError", "Exception"], ensures=[])
